@@ -14,6 +14,7 @@ import (
 	"os"
 	"path/filepath"
 	"sync"
+	"time"
 
 	"golang.org/x/crypto/pbkdf2"
 
@@ -117,6 +118,43 @@ func (e *eng) racejoin(n, max, iterations int) string {
 	}
 	if count != max && n >= max {
 		return fmt.Sprintf("odd:admitted=%d,max=%d", count, max)
+	}
+	return "ok"
+}
+
+// histsnap: a chat-history snapshot handed to a caller (the join replay reads it without the group
+// lock) must not change when the history is modified afterwards (C13: no unsynchronised access to
+// the group's chat-history state; C15: replayed history is what was stored).
+func (e *eng) histsnap(n, more int) string {
+	raceSeq++
+	name := fmt.Sprintf("hist%d", raceSeq)
+	file := filepath.Join(e.dir, name+".json")
+	if err := os.WriteFile(file, []byte(`{"users":{"u":{"password":"p","permissions":"op"}}}`), 0600); err != nil {
+		return "env:" + err.Error()
+	}
+	defer os.Remove(file)
+	g, err := group.Add(name, nil)
+	if err != nil {
+		return "env:" + err.Error()
+	}
+	defer group.Delete(name)
+	u := "u"
+	for i := 0; i < n; i++ {
+		g.AddToChatHistory(fmt.Sprintf("m%d", i), "src", &u, time.Now(), "", fmt.Sprintf("v%d", i))
+	}
+	snap := g.GetChatHistory()
+	ids := make([]string, len(snap))
+	for i, h := range snap {
+		ids[i] = h.Id
+	}
+	for i := 0; i < more; i++ {
+		g.AddToChatHistory(fmt.Sprintf("x%d", i), "src", &u, time.Now(), "", "later")
+	}
+	g.ClearChatHistory("", "")
+	for i, h := range snap {
+		if h.Id != ids[i] {
+			return fmt.Sprintf("bad:snapshot-entry-%d-changed-from-%s-to-%s", i, ids[i], h.Id)
+		}
 	}
 	return "ok"
 }
